@@ -264,3 +264,44 @@ Section VW.
       * cbn [wdepth]. fold (mxd fs). rewrite vdepth_VStruct. lia.
   Qed.
 End VW.
+
+(* ---------- the nesting depth of a value of a finite (non-recursive) type is bounded by the type ---------- *)
+Lemma vdepth_list_le B xs : Forall (fun y => vdepth y <= B) xs -> vdepth_list xs <= B.
+Proof. induction 1 as [|y r Hy _ IH]; cbn [vdepth_list]; lia. Qed.
+Lemma tmax_ge g fds fd : In fd fds -> (g (fty fd) <= tmax g fds)%nat.
+Proof.
+  induction fds as [|x r IH]; intros H; [contradiction|]. cbn [tmax fold_right]. fold (tmax g r).
+  destruct H as [->|H]; [lia|]. specialize (IH H). lia.
+Qed.
+
+Theorem vdepth_bound e : forall n t v, tfin n e t = true -> has_type e t v -> vdepth v <= N.of_nat (tneed n e t).
+Proof.
+  induction n as [|n IH]; intros t v Hfin Hty; [discriminate|].
+  inversion Hty as [t' v' Hsc Hst | s Hl | x xs Hx Hl Hall | len x xs Hlen Hpos Hl Hall | kt vt kvs Hl Hall | sid vs Hall]; subst;
+    cbn [tfin] in Hfin.
+  - destruct t; try discriminate; destruct v; cbn [sc_typed] in Hst; try contradiction; cbn [vdepth]; lia.
+  - cbn [vdepth]. lia.
+  - rewrite vdepth_VList. cbn [tneed].
+    assert (vdepth_list xs <= N.of_nat (tneed n e x)).
+    { apply vdepth_list_le. eapply Forall_impl; [|exact Hall]. intros y Hy. now apply IH. }
+    lia.
+  - rewrite vdepth_VList. cbn [tneed].
+    assert (vdepth_list xs <= N.of_nat (tneed n e x)).
+    { apply vdepth_list_le. eapply Forall_impl; [|exact Hall]. intros y Hy. now apply IH. }
+    lia.
+  - rewrite vdepth_VMap. cbn [tneed]. apply andb_true_iff in Hfin. destruct Hfin as [Hf1 Hf2].
+    assert (vdepth_entries kvs <= N.of_nat (Nat.max (tneed n e kt) (tneed n e vt))).
+    { clear - IH Hall Hf1 Hf2. induction Hall as [|[a b] r [Ha Hb] _ IHr]; cbn [vdepth_entries fst snd] in *; [lia|].
+      pose proof (IH kt a Hf1 Ha). pose proof (IH vt b Hf2 Hb). lia. }
+    lia.
+  - rewrite vdepth_VStruct. cbn [tneed]. rewrite forallb_forall in Hfin. clear Hty.
+    set (fds := fields_of e sid) in *. clearbody fds.
+    assert (vdepth_list vs <= N.of_nat (tmax (tneed n e) fds)).
+    { assert (Hin : forall fd, In fd fds -> (tneed n e (fty fd) <= tmax (tneed n e) fds)%nat) by (intros; now apply tmax_ge).
+      revert Hin. generalize (tmax (tneed n e) fds). intros B Hin.
+      induction Hall as [|fd y fds vs Hy _ IHr]; cbn [vdepth_list]; [lia|].
+      pose proof (IH (fty fd) y (Hfin fd (or_introl eq_refl)) Hy). pose proof (Hin fd (or_introl eq_refl)).
+      assert (vdepth_list vs <= N.of_nat B). { apply IHr; intros; [apply Hfin|apply Hin]; now right. }
+      lia. }
+    lia.
+Qed.
